@@ -82,7 +82,7 @@ def run(c, a):
             cases.append(d)
         except ValueError:
             pass
-    c.tlc("Gossip", "GossipRoute", "route.cfg", workers=1, timeout=120, line_cb=on_case, name="route-cases")
+    c.tlc("Gossip", "GossipRoute", "route.cfg", workers=1, timeout=600, line_cb=on_case, name="route-cases")
     if len(cases) < 200:
         raise Broken("routing decision table not generated (%d cases)" % len(cases))
     binpath = c.go_test_build("proxy", HARNESS, name="gossip")
